@@ -113,7 +113,7 @@ type emitter struct {
 	hist     map[string]int
 	distinct map[string]struct{}
 	samples  []interface{}
-	sampleAt map[uint64]bool
+	sampleKinds map[string]bool // op|stream combinations of which the first case is kept as a sample
 }
 
 func (e *emitter) add(term func(id uint64) string, key string, desc map[string]interface{}, tags ...string) {
@@ -128,8 +128,12 @@ func (e *emitter) add(term func(id uint64) string, key string, desc map[string]i
 	for _, t := range tags {
 		e.hist[t]++
 	}
-	if e.sampleAt[id] {
-		e.samples = append(e.samples, desc)
+	if len(tags) >= 2 {
+		k := tags[0] + "|" + tags[1]
+		if e.sampleKinds[k] {
+			delete(e.sampleKinds, k)
+			e.samples = append(e.samples, desc)
+		}
 	}
 }
 
@@ -873,7 +877,7 @@ func main() {
 	switch *tier {
 	case "quick":
 	case "thorough":
-		scale = 20
+		scale = 23
 	default:
 		die("unknown tier %q", *tier)
 	}
@@ -892,7 +896,9 @@ func main() {
 		w: &common.ShardWriter{Dir: *out, RunMod: "Regen.Cases.IdsRun", CaseType: "id_case", PerShard: 500,
 			Preamble: "Require Import Regen.Base.Calendar.\n"},
 		cases: map[string]interface{}{}, hist: map[string]int{}, distinct: map[string]struct{}{},
-		sampleAt: map[uint64]bool{3: true, 700: true, 2500: true, 5200: true, 9000: true},
+		sampleKinds: map[string]bool{"op:FormatBatchDenom|stream:valid": true, "op:ValidateBatchDenom|stream:near_miss": true,
+			"op:GetProjectIDFromBatchDenom|stream:valid": true, "op:GetCreditTypeAbbrevFromClassID|stream:arbitrary": true,
+			"op:FormatBasketDenom|stream:valid": true},
 	}
 	m := &monitors{seen: map[string]bool{}, classIDs: map[string][2]string{}, projIDs: map[string][2]string{},
 		denoms: map[string][5]string{}, baskets: map[string][3]string{}}
